@@ -93,6 +93,8 @@ class Function:
         self.file = d.get('file')
         self.line = d.get('line', 0)
         self.srcname = d.get('srcname', name)
+        self.fattrs = tuple(d.get('fattrs', ()))      # promises to the optimiser: 'readnone' (const), 'readonly' (pure), 'noreturn'
+        self.rattrs = tuple(d.get('rattrs', ()))      # 'nonnull' (returns_nonnull), 'noalias' (malloc)
         self.blocks = [Block(b, self, k) for k, b in enumerate(d.get('blocks', []))]
         self.bmap = {b.id: b for b in self.blocks}
         self.imap = {}
